@@ -112,7 +112,7 @@ fn grid_for(full: bool, thorough: bool) -> Vec<Limits3> {
     if full {
         for i in [1, 2, 3] {
             for f in [1, 2, 3] {
-                for g in [50, 300, BLOCK_GAS_LIMIT] {
+                for g in [7, 20, 50, 300, BLOCK_GAS_LIMIT] {
                     v.push(Limits3 {
                         iterations: i,
                         forks: f,
@@ -240,11 +240,16 @@ pub fn check_vm(code: &[u8], lim: &Limits3) -> Result<Option<Fired>, Verdict> {
     let thread = out.vm.instructions().new_thread(0).ok();
     if let Some(thread) = thread {
         let gas_of = |ip: u32| thread.instruction(ip).map(|o| o.min_gas_cost()).unwrap_or(0);
-        let max_single = (0..n as u32).map(gas_of).max().unwrap_or(0);
         for st in states {
             let total: usize = (0..n as u32)
                 .map(|ip| st.visited_instructions().visit_count(ip).unwrap_or(0) * gas_of(ip))
                 .sum();
+            // the instruction that took the thread over the limit is one the thread (or the history it inherited) executed
+            let max_single = (0..n as u32)
+                .filter(|ip| st.visited_instructions().visit_count(*ip).unwrap_or(0) > 0)
+                .map(gas_of)
+                .max()
+                .unwrap_or(0);
             if total > lim.gas + max_single {
                 return Err(Verdict {
                     key: "gas-bound".into(),
@@ -523,7 +528,7 @@ impl Check for C03 {
         let rule = format!(
             "(a) all token sequences <= {} over 14 control-flow tokens (JUMPDEST, CALLVALUE, PUSH 1, POP, DUP1, ADD, STOP, JUMP / \
              CALLVALUE-conditioned JUMPI to each of 3 labels, JUMP out of range): tight and nested loops, self-jumps, stack-growing \
-             loops, fork bombs; crossed with the full grid iterations {{1,2,3}} x forks {{1,2,3}} x gas {{50,300,block}} (plus the settings with limits (1,1) and (2,3,300) in permissive error mode) up to length {} \
+             loops, fork bombs; crossed with the full grid iterations {{1,2,3}} x forks {{1,2,3}} x gas {{7,20,50,300,block}} (plus the settings with limits (1,1) and (2,3,300) in permissive error mode) up to length {} \
              and 3 settings beyond. The VM is driven directly: finishes within an analytic step budget, per-state visit counts <= \
              iteration limit, per-target fork counts <= fork limit, states <= 1 + forks x jumpdests, cumulative minimum gas <= limit + \
              one instruction. (b) all stack-safe read-mask-write sequences <= {} over 10 tokens{}: analyze() must finish within {} \
